@@ -146,6 +146,8 @@ def b_len(I, args, kwargs, node):
         return len(v.items)
     if isinstance(v, SymColl):
         return mk_int(v.part.n)
+    if isinstance(v, SymList):
+        return mk_int(v.n)
     if isinstance(v, SDict):
         return len(v.d)
     if isinstance(v, SSet):
@@ -319,8 +321,30 @@ def b_range(I, args, kwargs, node):
     return list(range(*args))
 
 
+def symlist_elem(I, L, zi):
+    """element i (z3 Int known to be in range) of a symbolic list: an object whose fields are function applications;
+    the unfolding axioms of registered fold functions are instantiated for this index"""
+    zi = z3.simplify(zi) if z3.is_expr(zi) else z3.IntVal(zi)
+    cache = I.st.notes.setdefault('symlist_elems', {})
+    if (L.name, zi.get_id()) in cache:
+        return cache[(L.name, zi.get_id())][1]
+    fields = {}
+    for f, (fn, kind) in L.funcs.items():
+        t = fn(zi)
+        fields[f] = SStr([Sq(t)]) if kind == 'str' else (SInt(t) if kind == 'int' else SBool(t))
+    for hook in I.config.get('symlist_hooks', []):
+        hook(I, L, zi)
+    e = SObj(L.cls, fields, tag='symlist-element')
+    ck = (L.name, zi.get_id())
+    cache[ck] = (zi, e)
+    I.st.undo_log.append(lambda: cache.pop(ck, None))
+    return e
+
+
 def b_enumerate(I, args, kwargs, node):
     start = kwargs.get('start', args[1] if len(args) > 1 else 0)
+    if isinstance(args[0], SymList):
+        return EnumSym(args[0], start)
     return [(start + i, x) for i, x in enumerate(I.iterate(args[0], node))]
 
 
@@ -959,6 +983,14 @@ def subscript(I, obj, idx, node):
         if m is not None:
             return I.call(_I().BoundMethod(m, obj), [idx], {})
         raise PyRaise(TypeError)
+    if isinstance(obj, SymList):
+        if not is_intlike(idx):
+            raise PyRaise(TypeError)
+        zi = to_zint(idx)
+        if not I.branch(z3.And(zi >= -obj.n, zi < obj.n)):
+            raise PyRaise(IndexError, lineno=getattr(node, 'lineno', None))
+        pos = zi if I.st.implied(zi >= 0) else z3.If(zi >= 0, zi, zi + obj.n)
+        return symlist_elem(I, obj, pos)
     if isinstance(obj, list):
         return obj[idx]
     if hasattr(obj, 'subscript_model'):
